@@ -2045,6 +2045,7 @@ uint8_t tNMEA2000::SetN2kCANBufMsg(unsigned long canId, unsigned char len, unsig
                MsgIndex<MaxN2kCANMsgs &&
                !( N2kCANMsgBuf[MsgIndex].N2kMsg.PGN==PGN
                   && N2kCANMsgBuf[MsgIndex].N2kMsg.Source==Source
+                  && N2kCANMsgBuf[MsgIndex].N2kMsg.Destination==Destination
 #if !defined(N2K_NO_ISO_MULTI_PACKET_SUPPORT)
                   && !N2kCANMsgBuf[MsgIndex].N2kMsg.IsTPMessage()
 #endif
